@@ -143,6 +143,17 @@ def run(ctx, col: Collector):
                       node=act.node, file=act.module.replace('.', '/') + '.py')
     guarded(col, 'C15-form', 'property-form', form)
 
+    def value_roundtrip():
+        # property values are free text: writer/reader token agreement (rule shared with C13)
+        sub = ctx.sub('c13', col.prop)
+        n = 0
+        for o in sub.obs:
+            if o.rule == 'C13-sink' and o.construct.startswith('property value'):
+                n += 1
+                col.obs.append(type(o)(col.prop, 'C15-form', 'value-literal:' + o.construct, o.status, o.msg, o.file, o.line, o.extra))
+        col.floor('C15-form', 'property value sinks', n, 4)
+    guarded(col, 'C15-form', 'property-value-literal', value_roundtrip)
+
     # ---------------------------------------------------------------- C15-newline
     def newline():
         n_alt = 0
